@@ -42,9 +42,40 @@ def weak_orderings(n):
 
 
 class Ordering(object):
-    def __init__(self, terms, ranks, constraints=()):
+    def __init__(self, terms, ranks, constraints=(), integer=False):
         self.terms = list(terms)
         self.rank = dict(zip(terms, ranks))
+        # the terms stand for integers: x < y is x <= y - 1, so a form
+        # x - y + c has bounds the ordering alone gives
+        self.integer = integer
+
+    def bounds(self, form):
+        """(lo, hi) - each an int or None for unbounded - of a form
+        ``x - y + c`` (or ``c``, ``x - x + c``) over integer-valued terms."""
+        if not self.integer or not isinstance(form, Poly) or \
+                not form.is_linear():
+            return None, None
+        c0 = form.const_value()
+        if c0.denominator != 1:
+            return None, None
+        c0 = int(c0)
+        pos, neg = [], []
+        for m, c in form.t.items():
+            if m == ():
+                continue
+            if c.denominator != 1 or m[0] not in self.rank or abs(c) != 1:
+                return None, None
+            (pos if c > 0 else neg).append(m[0])
+        if not pos and not neg:
+            return c0, c0
+        if len(pos) != 1 or len(neg) != 1:
+            return None, None
+        rp, rn = self.rank[pos[0]], self.rank[neg[0]]
+        if rp > rn:
+            return 1 + c0, None
+        if rp < rn:
+            return None, c0 - 1
+        return c0, c0
 
     def sign(self, form):
         """Sign (-1, 0, +1) of a linear form over the terms, or None."""
@@ -182,6 +213,25 @@ class Evaluator(object):
             raise OrdError("comparison of non-numeric values")
         s = self.o.sign(a - b)
         if s is None:
+            lo, hi = self.o.bounds(a - b)
+            n = type(op).__name__
+            verdicts = {
+                "Lt": (hi is not None and hi < 0, lo is not None and lo >= 0),
+                "LtE": (hi is not None and hi <= 0, lo is not None and lo > 0),
+                "Gt": (lo is not None and lo > 0, hi is not None and hi <= 0),
+                "GtE": (lo is not None and lo >= 0,
+                        hi is not None and hi < 0),
+                "Eq": (lo is not None and lo == hi == 0,
+                       (lo is not None and lo > 0) or
+                       (hi is not None and hi < 0)),
+                "NotEq": ((lo is not None and lo > 0) or
+                          (hi is not None and hi < 0),
+                          lo is not None and lo == hi == 0)}
+            yes, no = verdicts.get(n, (False, False))
+            if yes:
+                return True
+            if no:
+                return False
             raise OrdError("the ordering does not decide %r ? %r" % (a, b))
         n = type(op).__name__
         return {"Lt": s < 0, "LtE": s <= 0, "Gt": s > 0, "GtE": s >= 0,
@@ -248,7 +298,7 @@ class Evaluator(object):
                        "fragment" % unparse(e)[:60])
 
 
-def evaluate_all(fn, terms, bindings_for, spec, premise=None):
+def evaluate_all(fn, terms, bindings_for, spec, premise=None, integer=False):
     """For every weak ordering of ``terms`` (optionally filtered by
     ``premise(ordering)``) evaluate fn abstractly and compare with
     spec(ordering).  Results that are linear forms are compared by the sign of
@@ -257,7 +307,7 @@ def evaluate_all(fn, terms, bindings_for, spec, premise=None):
     bad = []
     n = 0
     for ranks in weak_orderings(len(terms)):
-        o = Ordering(terms, ranks)
+        o = Ordering(terms, ranks, integer=integer)
         if premise is not None and not premise(o):
             continue
         n += 1
